@@ -157,6 +157,16 @@ class StoreJudge:
     # ---- fleet (C14): batches, round trip, bounded wait
     def fleet_line(self, op, ready_ids):
         INF = 10 ** 9
+        # finitely many kernel events per instant: a run of kernel steps that neither moves the clock nor
+        # delivers nor grants anything is a zero-time loop (with delay > 0 an instant holds < 10 fleet events)
+        if op[0] == "ev" and not ready_ids and self.now == getattr(self, "_ev_t", None):
+            self._ev_run = getattr(self, "_ev_run", 0) + 1
+            if self._ev_run == 15:
+                self.v("C14", f"15 consecutive kernel events at t={self.now} without the clock advancing: the fleet never departs / time never passes", "livelock")
+                self.v("C20", f"15 consecutive kernel events at t={self.now} without the clock advancing (zero-time livelock)", "livelock")
+        else:
+            self._ev_run = 0
+        self._ev_t = self.now if op[0] == "ev" else None
         if ready_ids:
             T = self.now; D = T - 2 * self.ftransit
             batch = []
